@@ -89,6 +89,28 @@ func runCase(phase string, i int) worker.Result {
 			res.MaxOf("max_direct_predecessors_of_start_node", int64(len(c.G.Preds(best))))
 		}
 	}
+	if c.API == "ExtendedCopyGraph" && (c.Depth > 0 || c.FilterAnno != "") && rng.IntN(2) == 0 {
+		// one of the start node's predecessors is already complete in the destination: with a depth limit
+		// or a filter it can be a root itself and, at the same time, a successor of another root
+		if ps := c.G.Preds(c.Root); len(ps) > 0 {
+			pick := ps[rng.IntN(len(ps))]
+			// prefer a predecessor that another predecessor reaches (e.g. a referrer that an index lists too)
+			for _, q := range ps {
+				for _, x := range c.G.Reach(q) {
+					for _, pp := range ps {
+						if x == pp && pp != q {
+							pick = pp
+							if c.Depth == 0 && c.FilterAnno == "" {
+								c.Depth = 1
+							}
+						}
+					}
+				}
+			}
+			c.Prepop = c.G.Reach(pick)
+			res.Count("extended_cases_with_a_predecessor_already_in_the_destination", 1)
+		}
+	}
 	c.Conc = []int{0, 1, 2, 3, 4, 5, 6, 7, 8}[rng.IntN(9)]
 	if c.Delay == 0 {
 		c.Delay = 300 * time.Microsecond
